@@ -443,6 +443,29 @@ func runC19(res *result) error {
 		if conn == nil {
 			fail = "cannot connect to the proxy: " + perr.String()
 		} else {
+			// in every third run the operator's status page is polled continuously while the traffic flows
+			polled := i%3 == 1
+			stopPoll := make(chan struct{})
+			pollDone := make(chan int, 1)
+			if polled {
+				go func() {
+					client := &http.Client{Timeout: 3 * time.Second}
+					polls := 0
+					for {
+						select {
+						case <-stopPoll:
+							pollDone <- polls
+							return
+						default:
+						}
+						if resp, err := client.Get(fmt.Sprintf("http://127.0.0.1:%d/status/report", ctlPort)); err == nil {
+							io.Copy(io.Discard, resp.Body)
+							resp.Body.Close()
+							polls++
+						}
+					}
+				}()
+			}
 			go func() {
 				rest := c2s
 				if burst {
@@ -470,6 +493,11 @@ func runC19(res *result) error {
 				}
 			}
 			upstream := <-gotUp
+			if polled {
+				close(stopPoll)
+				res.Branches["status-polls-during-traffic"] += <-pollDone
+				kind += "/polled"
+			}
 			switch {
 			case !bytes.Equal(upstream, c2s):
 				fail = fmt.Sprintf("the upstream server received %d bytes, the client sent %d (first difference at %d)", len(upstream), len(c2s), firstDiff(upstream, c2s))
